@@ -1,4 +1,98 @@
-// engine K harnesses for module hook 'report_hybrid' (included under cfg(kani) by /repo)
+// engine K — report/hybrid.rs (properties C10: report parser is total; C11: duplicate routing)
+use super::*;
+use crate::ff::boolean_array::{BA3, BA8};
+
+type Enc = EncryptedHybridReport<BA8, BA3>;
+type EncImp = EncryptedHybridImpressionReport<BA8>;
+type EncConv = EncryptedHybridConversionReport<BA3>;
+
+/// C10: the event-type byte is accepted iff it is 0 or 1
+#[kani::proof]
+fn c10_event_type_try_from() {
+    let b: u8 = kani::any();
+    kani::cover!(b == 1);
+    kani::cover!(b == 2);
+    match HybridEventType::try_from(b) {
+        Ok(HybridEventType::Impression) => assert!(b == 0),
+        Ok(HybridEventType::Conversion) => assert!(b == 1),
+        Err(_) => assert!(b > 1),
+    }
+}
+
+/// C10: EncryptedHybridReport::from_bytes returns (never panics) on every byte string of length 0..=3
+/// (symbolic contents): such records are shorter than any valid report, so the result must be Err.
+#[kani::proof]
+#[kani::unwind(6)]
+fn c10_report_from_bytes_short() {
+    let data: [u8; 3] = kani::any();
+    let len: usize = kani::any();
+    kani::assume(len <= 3);
+    kani::cover!(len == 0);
+    kani::cover!(len == 3 && data[0] == 1);
+    let b = Bytes::copy_from_slice(&data[..len]);
+    let r = Enc::from_bytes(b);
+    assert!(r.is_err());
+}
+
+/// C10: at the decision boundary of the impression variant: a record of exactly 1 + INFO_OFFSET - 1 bytes is
+/// rejected, one of 1 + INFO_OFFSET bytes is accepted as the variant named by byte 0 (contents symbolic).
+#[kani::proof]
+#[kani::unwind(4)]
+fn c10_report_from_bytes_boundary_imp() {
+    const N: usize = EncImp::INFO_OFFSET + 1;
+    let mut data = [0u8; N];
+    data[0] = 0;
+    data[1] = kani::any();
+    data[N - 1] = kani::any();
+    kani::cover!(true);
+    let short = Enc::from_bytes(Bytes::copy_from_slice(&data[..N - 1]));
+    assert!(matches!(short, Err(InvalidHybridReportError::Length(l, m)) if l == N - 2 && m == N - 1));
+    let exact = Enc::from_bytes(Bytes::copy_from_slice(&data[..]));
+    assert!(matches!(exact, Ok(EncryptedHybridReport::Impression(_))));
+}
+
+#[kani::proof]
+#[kani::unwind(4)]
+fn c10_report_from_bytes_boundary_conv() {
+    const N: usize = EncConv::INFO_OFFSET + 1;
+    let mut data = [0u8; N];
+    data[0] = 1;
+    data[1] = kani::any();
+    data[N - 1] = kani::any();
+    kani::cover!(true);
+    let short = Enc::from_bytes(Bytes::copy_from_slice(&data[..N - 1]));
+    assert!(matches!(short, Err(InvalidHybridReportError::Length(l, m)) if l == N - 2 && m == N - 1));
+    let exact = Enc::from_bytes(Bytes::copy_from_slice(&data[..]));
+    assert!(matches!(exact, Ok(EncryptedHybridReport::Conversion(_))));
+}
+
+/// C11: for every 128-bit tag and every shard count 1..=8 the chosen shard is valid (< n), equals tag mod n,
+/// and two evaluations on the same tag agree (no hidden state).
+#[kani::proof]
+#[kani::unwind(10)]
+fn c11_shard_picker() {
+    let bytes: [u8; 16] = kani::any();
+    let t = UniqueTag { bytes };
+    let t2 = UniqueTag { bytes };
+    kani::cover!(bytes[15] == 0xff);
+    for n in 1u32..=8 {
+        let s = t.shard_picker(ShardIndex::from(n));
+        assert!(u32::from(s) < n);
+        assert!(u128::from(u32::from(s)) == u128::from_le_bytes(bytes) % u128::from(n));
+        assert!(t2.shard_picker(ShardIndex::from(n)) == s);
+    }
+}
+
+/// C11: the tag of a tag is itself (from_unique_bytes is a byte copy)
+#[kani::proof]
+#[kani::unwind(18)]
+fn c11_unique_tag_copy() {
+    let bytes: [u8; 16] = kani::any();
+    let t = UniqueTag { bytes };
+    kani::cover!(true);
+    let u = UniqueTag::from_unique_bytes(&t);
+    assert!(u.bytes == bytes && t.unique_bytes() == bytes);
+}
 
 #[cfg(test)]
 include!(concat!(env!("IPA_VERIF_DIR"), "/.build/playback/report_hybrid.rs"));
